@@ -31,6 +31,23 @@ class KnownStop(Exception):
     """Raised by a property to end a run after a tolerated (known) finding."""
 
 
+def _sut_exception(exc: BaseException) -> Optional[str]:
+    """If the exception was raised underneath SynKit code (and not by harness code that SynKit called back
+    into), return '<module>.<function>' of the outermost SynKit frame, else None."""
+    frames = traceback.extract_tb(exc.__traceback__)
+    if not frames:
+        return None
+    deepest = frames[-1].filename.replace("\\", "/")
+    if "/dsim/" in deepest:
+        return None
+    for fr in frames:
+        fn = fr.filename.replace("\\", "/")
+        if "/synkit/" in fn:
+            mod = fn.split("/synkit/", 1)[1].rsplit(".", 1)[0].replace("/", ".")
+            return f"synkit.{mod}.{fr.name}"
+    return None
+
+
 def load_prop(pid: str):
     return importlib.import_module("dsim.props." + pid.lower())
 
@@ -66,9 +83,19 @@ def run_case(prop, case: Dict[str, Any], seed: int, known: Dict[Tuple, str], kee
     except StepCap as e:
         res["verdict"] = "error"
         res["error"] = "StepCap: " + str(e)
-    except Exception:
-        res["verdict"] = "error"
-        res["error"] = traceback.format_exc()[-3000:]
+    except Exception as exc:
+        sut = _sut_exception(exc)
+        if sut is not None:
+            # the library raised on an input / history the property covers: a violation (with replay), not a harness error
+            v = Violation(getattr(prop, "PROP", "?"), sut, "unexpected_exception", type(exc).__name__,
+                          {"exception": repr(exc)[:300], "traceback_tail": traceback.format_exc()[-900:]})
+            if not tolerate(v):
+                res["verdict"] = "violation"
+                res["sig"] = list(v.signature)
+                res["detail"] = cjson(v.detail)[:4000]
+        else:
+            res["verdict"] = "error"
+            res["error"] = traceback.format_exc()[-3000:]
     res["digest"] = sim.digest
     res["faults"] = sim.faults
     res["probes"] = sim.probes
